@@ -71,6 +71,10 @@ pub fn judge<A: Attr>(rep: &mut Report, p: &[[f32; 3]; 3], a: &[[f32; MAXC]; 3])
             gb[0].1 * vals[0] + gb[1].1 * vals[1] + gb[2].1 * vals[2],
         )
     };
+    let elen = |a: P2, b: P2| ((a.0 - b.0).powi(2) + (a.1 - b.1).powi(2)).sqrt();
+    // altitude over the edge opposite vertex i
+    let alt: [f64; 3] = [a2.abs() / elen(v[1], v[2]).max(1e-300), a2.abs() / elen(v[2], v[0]).max(1e-300), a2.abs() / elen(v[0], v[1]).max(1e-300)];
+    let alt_min = alt.iter().cloned().fold(f64::INFINITY, f64::min);
     let gz = grad(&z);
     let gz_len = (gz.0 * gz.0 + gz.1 * gz.1).sqrt();
 
@@ -99,6 +103,16 @@ pub fn judge<A: Attr>(rep: &mut Report, p: &[[f32; 3]; 3], a: &[[f32; MAXC]; 3])
                 return;
             }
             let Some(b) = geo::bary(centre, &v) else { continue };
+            // distance of the centre from each edge line = b_i · altitude_i.
+            // A fragment inside C04's 0.001 px band of a triangle thinner
+            // than 0.01 px sits on a "plane" that is vertical for all
+            // practical purposes: its values are not judged (finiteness
+            // and position are), and it is counted.
+            let inside_by = (0..3).map(|i| b[i] * alt[i]).fold(f64::INFINITY, f64::min);
+            if inside_by < 0.001 && alt_min < 0.01 {
+                rep.count("fragments.in_band_of_sub_0.01px_sliver(values unjudged)");
+                continue;
+            }
             let ze = b[0] * z[0] + b[1] * z[1] + b[2] * z[2];
             // depth: 0.5 % of the range of the vertex depths (+ f32 rounding
             // floor + first-order positional slack of 0.001 px, DESIGN §10-2)
